@@ -265,6 +265,12 @@ impl<T: Send> UnboundedAsyncSender<T> {
 
 impl<T: Send> Clone for UnboundedSyncSender<T> {
   fn clone(&self) -> Self {
+    // a clone of a closed handle is closed too: it must not revive a disconnected channel
+    if self.closed {
+      let mut clone = Self::from_shared(Arc::clone(&self.shared));
+      clone.closed = true;
+      return clone;
+    }
     self.shared.add_sender();
     Self::from_shared(Arc::clone(&self.shared))
   }
@@ -272,6 +278,12 @@ impl<T: Send> Clone for UnboundedSyncSender<T> {
 
 impl<T: Send> Clone for UnboundedAsyncSender<T> {
   fn clone(&self) -> Self {
+    // a clone of a closed handle is closed too: it must not revive a disconnected channel
+    if self.closed {
+      let mut clone = Self::from_shared(Arc::clone(&self.shared));
+      clone.closed = true;
+      return clone;
+    }
     self.shared.add_sender();
     Self::from_shared(Arc::clone(&self.shared))
   }
